@@ -348,8 +348,9 @@ def charname_eof(ctx, lexpr):
 
     def run(seq, assume_name_bytes):
         def extra(S, f, bb, t, args, path, names):
-            if assume_name_bytes and "parse::is_delimiter" in names and args and isinstance(S._deref(args[0], path), Rng):
-                return ("value", 0)       # the ranged bytes stand for name characters
+            if assume_name_bytes and any(x.endswith("::is_delimiter") for x in names) and args \
+                    and isinstance(S._deref(args[0], path), Rng):
+                return ("value", 0)       # the ranged bytes stand for name characters (letters, once matched)
             return None
         S = sim.Sim([lexpr], hooks={"call": lex.seq_hook(seq, extra)}, inline=inl, max_paths=20000, max_depth=6, max_visits=16)
         S.structural_vec = True
